@@ -319,6 +319,59 @@ func c05(c *core.Ctx) {
 	c.Family("bwd", c.N(50000, 6000000), func(k *core.Case) {
 		c05Backward(k, gen.Msg(k.R, gen.Opt{AllowBig: true, AllowEmpty: true}))
 	})
+	// around the 16-bit payload length limit: whatever Encode returns WITHOUT an error must be a well-formed datagram
+	// from which the independent parser recovers the fields; beyond the limit an error is the only other outcome
+	c.Family("fwd-at-limit", 8*24, func(k *core.Case) {
+		total := 65524 + k.Index/8 // generic header + body: 65524..65547
+		body := total - 4
+		var p abs.Payload
+		switch k.Index % 8 {
+		case 0:
+			p = abs.Payload{Kind: abs.PNonce, Data: gen.DataN(k.R, body)}
+		case 1:
+			p = abs.Payload{Kind: abs.PVendor, Data: gen.DataN(k.R, body)}
+		case 2:
+			p = abs.Payload{Kind: abs.PKE, KE: &abs.KE{Group: 14, Data: gen.DataN(k.R, body-4)}}
+		case 3:
+			p = abs.Payload{Kind: abs.PCERT, Cert: &abs.Cert{Enc: 4, Data: gen.DataN(k.R, body-1)}}
+		case 4:
+			p = abs.Payload{Kind: abs.PNotify, Notify: &abs.Notify{Type: 1, SPI: gen.DataN(k.R, 4), Data: gen.DataN(k.R, body-8)}}
+		case 5:
+			p = abs.Payload{Kind: abs.PAUTH, Auth: &abs.Auth{Method: 2, Data: gen.DataN(k.R, body-4)}}
+		case 6:
+			p = abs.Payload{Kind: abs.PIDi, ID: &abs.ID{Type: 11, Data: gen.DataN(k.R, body-4)}}
+		default:
+			p = abs.Payload{Kind: abs.PEAP, EAP: &abs.EAP{Code: 2, ID: 1, Method: &abs.Method{Type: abs.MIdentity, Data: gen.DataN(k.R, body-5)}}}
+		}
+		m := gen.Header(k.R)
+		m.Payloads = []abs.Payload{gen.Notify(k.R), p}
+		k.Eval(1)
+		enc, err, pn := libEncode(m)
+		w := M{"payload_kind": abs.KindName[p.Kind], "payload_total_octets": total}
+		if pn != nil {
+			k.Violate("panic", "encode-at-limit: "+pn.Sig(), "panic", panicData(pn, w))
+			return
+		}
+		if err != nil {
+			if total <= 65535 {
+				k.Violate("encode-error", "encode-error-below-limit/"+abs.KindName[p.Kind], errStr(err), w)
+				return
+			}
+			k.Count("at_limit_refused_with_error", 1)
+			k.Distinct(fmt.Sprintf("limit|err|%d|%d", p.Kind, total))
+			return
+		}
+		pm, perr := ref.ParseMsg(enc)
+		if perr != nil || !abs.Equal(m, pm) {
+			w["wire_len"] = len(enc)
+			k.Violate("malformed", "malformed-datagram-returned-without-error/"+abs.KindName[p.Kind],
+				fmt.Sprintf("Encode returned %d octets and no error for a payload of %d octets, but the independent parser says: %v", len(enc), total, perr), w)
+			return
+		}
+		k.Count("at_limit_encoded_ok", 1)
+		k.Distinct(fmt.Sprintf("limit|ok|%d|%d", p.Kind, total))
+	})
+	c.Require("at_limit_refused_with_error", "at_limit_encoded_ok")
 	c.Family("bwd-single", c.N(15000, 1000000), func(k *core.Case) {
 		m := gen.Header(k.R)
 		kinds := gen.AllKinds()
